@@ -119,7 +119,8 @@ var specMany = pbt.Register(&pbt.Spec[Case]{
 		"two kept String results are compared with the model, so a state that goes wrong after 2^16 calls (a wrapped counter, an exhausted pool, a cache entry evicted) is seen at the call where it " +
 		"happens; " + rule,
 	Enum: manyCases,
-	Run:  Run,
+	Run:  Run, Replicas: 4, ReplicaEvery: 16,
+	CaseCPU: 10 * time.Minute, // the long cases of the thorough tier (2^18 rounds), four copies at a time
 })
 
 func TestC08Many(t *testing.T) { pbt.Check(t, specMany) }
